@@ -133,10 +133,17 @@ def tol_for(cfg, pts):
     return fractions.Fraction(mx) / 2 ** 20 + fractions.Fraction(1, 10 ** 6)
 
 
-def write_pos(d, sites, zs):
+def write_pos(d, sites, zs, fmt='repr'):
+    """The mapping file in one of the number formats such files come in: shortest round-trip decimals, numpy.savetxt's default
+    exponent notation, fixed decimals (enough of them to be exact for the float32 values used)."""
     with open(d / 'POS.txt', 'w') as fh:
         for (x, y), z in zip(sites, zs):
-            fh.write(f'{x!r} {y!r} {z!r}\n')
+            if fmt == 'e':
+                fh.write('%.18e %.18e %.18e\n' % (x, y, z))
+            elif fmt == 'f':
+                fh.write('%.30f %.30f %.30f\n' % (x, y, z))
+            else:
+                fh.write(f'{x!r} {y!r} {z!r}\n')
 
 
 def call_tp(G, pts, dt):
@@ -158,7 +165,8 @@ def build_case(rng):
     zs = [gcommon.f32(f(x, y)) for x, y in sites]
     cfg = wcfg(rng, lx, ly)
     return {'lx': lx, 'ly': ly, 'kind': kind, 'layout': layout, 'sites': [list(s) for s in sites], 'zs': zs, 'cfg': cfg,
-            'qseed': rng.randrange(1 << 30), 'dt': rng.choice(['f32', 'f32', 'f64', 'list']), 'refit': rng.random() < 0.3}, f
+            'qseed': rng.randrange(1 << 30), 'dt': rng.choice(['f32', 'f32', 'f64', 'list']), 'refit': rng.random() < 0.3,
+            'fmt': rng.choice(['repr', 'repr', 'e', 'f'])}, f
 
 
 def queries(case):
@@ -188,7 +196,7 @@ def check_case(ctx, case, f=None, collect=None):
     dt = case['dt']
     obs = {}
     with gcommon.Scratch() as d, core.quiet():
-        write_pos(d, sites, zs)
+        write_pos(d, sites, zs, case.get('fmt', 'repr'))
         G = PGMCompiler(warp_flag=True, **cfg)
         # sites
         zq = [gcommon.f32(-0.1 + 0.013 * (i % 11)) for i in range(len(sites))]
@@ -227,13 +235,13 @@ def check_case(ctx, case, f=None, collect=None):
         obs['refit'] = None
         if case.get('refit'):
             zs2 = [gcommon.f32(z + 0.003 * math.sin(1.3 * x) + 0.0005 * y) for (x, y), z in zip(sites, zs)]
-            write_pos(d, sites, zs2)
+            write_pos(d, sites, zs2, case.get('fmt', 'repr'))
             (d / 'fwarp.pkl').unlink()
             Gr = PGMCompiler(warp_flag=True, **cfg)
             _, out_r = call_tp(Gr, spts, dt)
             obs['refit'] = (zs2, out_r)
             # put the first mapping back for the remaining observations
-            write_pos(d, sites, zs)
+            write_pos(d, sites, zs, case.get('fmt', 'repr'))
             (d / 'fwarp.pkl').unlink()
             PGMCompiler(warp_flag=True, **cfg)
         # off
@@ -264,7 +272,7 @@ def check_case(ctx, case, f=None, collect=None):
                 raise core.InfraError(m['driver_error'])
         m_sites, m_btw, m_off, g = res[:4]
         m_refit = res[4] if len(res) > 4 else None
-        info = {k: case.get(k) for k in ('lx', 'ly', 'kind', 'layout', 'cfg', 'dt', 'qseed', 'sites', 'zs', 'refit')}
+        info = {k: case.get(k) for k in ('lx', 'ly', 'kind', 'layout', 'cfg', 'dt', 'qseed', 'sites', 'zs', 'refit', 'fmt')}
         nsh = cfg['shift_origin'] != (0.0, 0.0)
         nt = case['kind'] != 'plane' and nsh and (cfg['flip_x'] or cfg['flip_y'] or (cfg['rotation_angle'] or 0) % 360 != 0)
         ctx.seen({'stream': 'warp', 'n': len(sites), 'kind': case['kind'], 'layout': case['layout'], 'cfg': cfg, 'q': case['qseed']}, nt)
@@ -364,5 +372,6 @@ def replay(ctx, payload):
     c = payload['case']
     case = {k: c[k] for k in ('lx', 'ly', 'kind', 'layout', 'cfg', 'dt', 'qseed', 'sites', 'zs')}
     case['refit'] = c.get('refit', False)
+    case['fmt'] = c.get('fmt', 'repr')
     r, judge = check_case(ctx, case, None)
     judge(ctx.driver.ask(r))
